@@ -1,4 +1,4 @@
-// vhx-c07 is the private development binary of checks C07 and C15.
+// private development binary for C20 (removed when the check is registered in cmd/vh)
 package main
 
 import (
@@ -8,8 +8,7 @@ import (
 
 	"verif/harness/internal/vf"
 
-	_ "verif/harness/internal/c07"
-	_ "verif/harness/internal/c15"
+	_ "verif/harness/internal/c20"
 )
 
 func main() {
